@@ -1,4 +1,5 @@
 (* Universal value type used to pass cases between the Python harness, vm_compute and the extracted runner. *)
+From Coq Require Import String Ascii.
 From EN Require Import Lib.Bytes.
 
 Inductive sx :=
@@ -19,6 +20,19 @@ Fixpoint sx_eqb (x y : sx) {struct x} : bool :=
          end) a b
   | _, _ => false
   end.
+
+(* compact byte-string literals for generated case files: Bx "0a0d" = B [10; 13] *)
+Definition hexval (c : Ascii.ascii) : N :=
+  let n := Ascii.N_of_ascii c in
+  if (N.leb 48 n && N.leb n 57)%bool then (n - 48)%N
+  else if (N.leb 97 n && N.leb n 102)%bool then (n - 87)%N
+  else 0%N.
+Fixpoint hex (s : String.string) : bytes :=
+  match s with
+  | String.String a (String.String b r) => (16 * hexval a + hexval b)%N :: hex r
+  | _ => []
+  end.
+Definition Bx (s : String.string) : sx := B (hex s).
 
 Definition bad_input : sx := L [A (-999)%Z].
 
